@@ -35,7 +35,7 @@ def main():
         if a.only:
             idx = [int(x) for x in a.only.split(',')]
             items = [items[i] for i in idx]
-        results = runner.run_items(prop.lower(), items, timeout=getattr(mod, 'TIMEOUT', {}).get(a.tier, 600))
+        results = runner.run_items(prop.lower(), items, timeout=getattr(mod, 'TIMEOUT', {}).get(a.tier, 240))
         byid = {it['id']: it for it in items}
         for res in results:
             for v in res.get('violations', []):
